@@ -1,9 +1,21 @@
 #!/bin/sh
 # usage: tools/mutant.sh <patch> <Cxx> [<Cyy> ...] : apply a seeded change to /repo, run the checks, undo it.
 # Evidence of these runs goes to work/mutant_evidence, never to evidence/.
+# With MUT_SCRATCH=1 the change is applied to a throw-away copy of /repo's HEAD under /tmp instead and the checks are
+# pointed at it (CHARTPARSE_REPO), so that other jobs reading /repo at the same time are not disturbed.
 patch="$1"; shift
-git -C /repo apply "$patch" || exit 2
 mkdir -p /verif/work/mutant_evidence
+if [ -n "$MUT_SCRATCH" ]; then
+  S=/tmp/mutrepo.$$; rm -rf "$S"; mkdir -p "$S"
+  git -C /repo archive HEAD | tar -x -C "$S" || exit 2
+  (cd "$S" && git apply "$patch") || { rm -rf "$S"; exit 2; }
+  for p in "$@"; do
+    CHARTPARSE_REPO="$S" VERIF_EVIDENCE_DIR=/verif/work/mutant_evidence /verif/check "$p" 2>&1 | grep -E "^(VIOLATION|FAIL|ok) "
+  done
+  rm -rf "$S"
+  exit 0
+fi
+git -C /repo apply "$patch" || exit 2
 for p in "$@"; do
   VERIF_EVIDENCE_DIR=/verif/work/mutant_evidence /verif/check "$p" 2>&1 | grep -E "^(VIOLATION|FAIL|ok) "
 done
